@@ -49,6 +49,7 @@ func Gen(t *rapid.T) *Case {
 		p := Pub{Mode: rapid.SampledFrom([]string{"plain", "values", "values", "values", "cancelled"}).Draw(t, "mode")}
 		if p.Mode != "plain" {
 			p.NVals = rapid.IntRange(0, 3).Draw(t, "nvals")
+			p.Foreign = rapid.IntRange(0, 2).Draw(t, "foreign") == 0
 		}
 		c.Pubs = append(c.Pubs, p)
 	}
